@@ -36,6 +36,9 @@ pub enum LifeOp {
     /// `Runtime::add` one more registered closure `xf<aid % 2>` capturing a tracked value with
     /// payload 6000+aid to the runtime in slot `r`
     AddFunction { r: usize, aid: u64 },
+    /// Fault "the owner dies in a panic": the handle (`what` 0), package (1) or runtime (2) in
+    /// `slot` is owned by a frame that panics; the unwinding of that panic releases it.
+    DropUnwinding { what: u8, slot: usize },
 }
 
 #[derive(Clone, Debug, Serialize, Deserialize)]
@@ -77,6 +80,8 @@ static IN_COMPILE: AtomicI64 = AtomicI64::new(0);
 static P_COMPILE_OVERLAP: AtomicU64 = AtomicU64::new(0);
 static P_DROP_DURING_CALL: AtomicU64 = AtomicU64::new(0);
 static P_LAST_HOLDER_FOREIGN: AtomicU64 = AtomicU64::new(0);
+static P_UNWIND_DROPS: AtomicU64 = AtomicU64::new(0);
+static P_UNWIND_LAST: AtomicU64 = AtomicU64::new(0);
 static P_CALL_AFTER_PKG_AND_RT_GONE: AtomicU64 = AtomicU64::new(0);
 static P_CALL_AFTER_FAILED_RELOAD: AtomicU64 = AtomicU64::new(0);
 static P_SKIPPED: AtomicU64 = AtomicU64::new(0);
@@ -144,8 +149,17 @@ fn mk_runtime(rid: u64) -> Runtime<NoCtx> {
     rt
 }
 
+/// A registered type without destructor and clone function (`#[copy]`), larger than two words
+#[derive(Clone, Copy, PartialEq, Debug)]
+pub struct Limits {
+    low: u64,
+    high: u64,
+    step: u64,
+}
+
 fn mk_runtime_base(rid: u64) -> Runtime<NoCtx> {
     let cap = T24::new(100 + rid);
+    let lim = Val(Limits { low: 11 + rid, high: 22, step: 33 });
     let k = Val(T24::new(200 + rid));
     let ko: Option<Val<T24>> = Some(Val(T24::new(300 + rid)));
     let ks: Option<RotoString> = Some(RotoString::from(format!("ks{rid}")));
@@ -156,6 +170,13 @@ fn mk_runtime_base(rid: u64) -> Runtime<NoCtx> {
         fn mkz() -> Val<Zst> {
             Val(Zst::new())
         }
+        #[copy] type Lim = Val<Limits>;
+        impl Val<Limits> {
+            fn low(self) -> u64 { self.low }
+            fn high(self) -> u64 { self.high }
+            fn step(self) -> u64 { self.step }
+        }
+        const LIM: Val<Limits> = lim;
         const K: Val<T24> = k;
         const KO: Option<Val<T24>> = ko;
         const KS: Option<RotoString> = ks;
@@ -303,6 +324,9 @@ fn f(x: u64) -> u64 {{
     if o.i.ib == 20 && o.i.ic == 30 {{ acc = acc + 50; }}
     if o2.i.ib == 21 && o2.i.ic == 31 {{ acc = acc + 50; }}
     if o3.i.ib == 22 && o3.i.ic == 32 {{ acc = acc + 50; }}
+    // (registered constants of plain-data types: nothing to drop, but storage the code points into)
+    acc = acc + LIM.low() + LIM.high() + LIM.step();
+    if IpAddr.LOCALHOSTV4 == 127.0.0.1 {{ acc = acc + 1; }}
     acc + cap2() + cap3() + usez_{k}() - 1
 }}
 const ZC: Zt = mkz();
@@ -478,34 +502,67 @@ fn drop_rt(e: RtEnt) {
         }
     });
     note_drop();
-    drop(e);
+    release(e, false);
 }
 fn drop_pk(e: PkEnt) {
     let me = sched::tid();
+    let mut last = false;
     with_model(|m| {
         if let Some(x) = m.mods.get_mut(&e.m) {
             x.pkg = false;
+            last = x.handles == 0;
             if x.handles == 0 && x.compiled_by != me {
                 P_LAST_HOLDER_FOREIGN.fetch_add(1, SeqCst);
             }
         }
     });
     note_drop();
-    drop(e);
+    release(e, last);
 }
 fn drop_hd(e: HdEnt) {
     let me = sched::tid();
+    let mut last = false;
     with_model(|m| {
         if let Some(x) = m.mods.get_mut(&e.m) {
             x.handles -= 1;
+            last = x.handles == 0 && !x.pkg;
             if x.handles == 0 && !x.pkg && x.compiled_by != me {
                 P_LAST_HOLDER_FOREIGN.fetch_add(1, SeqCst);
             }
         }
     });
     note_drop();
-    drop(e);
+    release(e, last);
 }
+thread_local! {
+    /// set by `DropUnwinding`: the next release on this thread happens during a panic's unwinding
+    static UNWIND_NEXT: std::cell::Cell<bool> = const { std::cell::Cell::new(false) };
+}
+struct InjectedUnwind;
+
+/// Every explicit drop of a runtime, package or handle goes through here.
+fn release<T>(v: T, last_holder: bool) {
+    if UNWIND_NEXT.with(|u| u.replace(false)) {
+        P_UNWIND_DROPS.fetch_add(1, SeqCst);
+        if last_holder {
+            P_UNWIND_LAST.fetch_add(1, SeqCst);
+        }
+        // (`resume_unwind` raises the panic without running the panic hook; `thread::panicking()`
+        // is true while `_owned` is dropped)
+        let r = std::panic::catch_unwind(std::panic::AssertUnwindSafe(move || {
+            let _owned = v;
+            std::panic::resume_unwind(Box::new(InjectedUnwind));
+        }));
+        match r {
+            Err(e) if e.is::<InjectedUnwind>() => {}
+            Err(e) => std::panic::resume_unwind(e),
+            Ok(()) => unreachable!(),
+        }
+    } else {
+        drop(v);
+    }
+}
+
 fn note_drop() {
     if IN_CALL.load(SeqCst) > 0 {
         P_DROP_DURING_CALL.fetch_add(1, SeqCst);
@@ -568,6 +625,7 @@ fn label(op: &LifeOp) -> &'static str {
         LifeOp::Call { .. } => "call",
         LifeOp::DropHandle { .. } => "drop-handle",
         LifeOp::DropPackage { .. } => "drop-package",
+        LifeOp::DropUnwinding { .. } => "drop-unwinding",
         LifeOp::IntoFunc { .. } => "into-func",
         LifeOp::AddConstant { .. } => "add-constant",
         LifeOp::AddFunction { .. } => "add-function",
@@ -782,7 +840,7 @@ fn exec_inner(op: &LifeOp) -> bool {
                     };
                     let log = take_hostlog();
                     let many: u64 = (0..many_constants(k)).filter(|i| i % 10 != 9).map(|i| i + k).sum();
-                    let want = x.wrapping_mul(k) + 2 * c + (200 + rid) + (100 + rid) + 2 + 1 + (c + 2) + k + (c + 3) + (300 + rid) + 2 + extras.iter().sum::<u64>() + many + (600 + rid) + (700 + rid) + (k + x) + 3 + x + 5 + (x + 1 + 7) + (x + 2 + 9) + 150;
+                    let want = x.wrapping_mul(k) + 2 * c + (200 + rid) + (100 + rid) + 2 + 1 + (c + 2) + k + (c + 3) + (300 + rid) + 2 + extras.iter().sum::<u64>() + many + (600 + rid) + (700 + rid) + (k + x) + 3 + x + 5 + (x + 1 + 7) + (x + 2 + 9) + 150 + (11 + rid) + 55 + 1;
                     let mut want_log: Vec<(&str, u64)> = vec![("log", *x), ("val", c), ("val", c), ("val", 200 + rid), ("cap", 100 + rid), ("val", c + 2), ("val", c + 3), ("val", 300 + rid)];
                     want_log.extend(extras.iter().map(|p| if *p >= 6000 { ("cap", *p) } else { ("val", *p) }));
                     want_log.push(("cap", 600 + rid));
@@ -865,6 +923,18 @@ fn exec_inner(op: &LifeOp) -> bool {
             let Some(e) = with_pools(|pl| pl.pks[*p].take()) else { return false };
             drop_pk(e);
             true
+        }
+        LifeOp::DropUnwinding { what, slot } => {
+            let inner = match what {
+                0 => LifeOp::DropHandle { h: *slot },
+                1 => LifeOp::DropPackage { p: *slot },
+                _ => LifeOp::DropRuntime { r: *slot },
+            };
+            UNWIND_NEXT.with(|u| u.set(true));
+            let done = exec_inner(&inner);
+            // (an empty slot: nothing was released)
+            UNWIND_NEXT.with(|u| u.set(false));
+            done
         }
         LifeOp::AddConstant { r, aid } => {
             let Some(mut e) = with_pools(|p| p.rts[*r].take()) else { return false };
@@ -1078,6 +1148,7 @@ pub fn generate_owner_race(run_seed: u64) -> LifeDesc {
         threads.push((0..n).map(|_| pick(&mut r, t)).collect::<Vec<_>>());
     }
     let fine = Some((0usize, 0usize, 1 + r.below(1400)));
+    unwind_some(run_seed, &mut setup, &mut threads);
     LifeDesc {
         property: "C11".into(),
         scenario: "owner-race".into(),
@@ -1089,6 +1160,28 @@ pub fn generate_owner_race(run_seed: u64) -> LifeDesc {
         teardown_seed: rng::derive(run_seed, &[rng::label("teardown")]),
         fine,
         schedule: None,
+    }
+}
+
+/// Fault kind "the owner dies in a panic": in one run of three, each explicit drop is, one time
+/// in two, carried out by the unwinding of a panic instead of a plain `drop`.
+fn unwind_some(run_seed: u64, setup: &mut [LifeOp], threads: &mut [Vec<LifeOp>]) {
+    let mut ur = Rng::new(rng::derive(run_seed, &[rng::label("unwind")]));
+    if !ur.chance(1, 3) {
+        return;
+    }
+    for op in setup.iter_mut().chain(threads.iter_mut().flatten()) {
+        let conv = match op {
+            LifeOp::DropHandle { h } => Some((0u8, *h)),
+            LifeOp::DropPackage { p } => Some((1, *p)),
+            LifeOp::DropRuntime { r } => Some((2, *r)),
+            _ => None,
+        };
+        if let Some((what, slot)) = conv {
+            if ur.chance(1, 2) {
+                *op = LifeOp::DropUnwinding { what, slot };
+            }
+        }
     }
 }
 
@@ -1193,6 +1286,7 @@ pub fn generate(run_seed: u64, thorough: bool) -> LifeDesc {
             fine = Some((t, i, k));
         }
     }
+    unwind_some(run_seed, &mut setup, &mut threads);
     LifeDesc {
         property: "C11".into(),
         scenario: "lifecycle".into(),
@@ -1222,7 +1316,7 @@ pub fn execute(d: &LifeDesc, keep_trace: bool) -> RunResult {
     COMPILES.lock().unwrap().clear();
     KEPT_STR.lock().unwrap().clear();
     KEPT_OBJ.lock().unwrap().clear();
-    for a in [&P_COMPILE_OVERLAP, &P_DROP_DURING_CALL, &P_LAST_HOLDER_FOREIGN, &P_CALL_AFTER_PKG_AND_RT_GONE, &P_CALL_AFTER_FAILED_RELOAD, &P_SKIPPED, &P_EXECUTED, &P_CHECKS, &FAILED_RELOADS] {
+    for a in [&P_COMPILE_OVERLAP, &P_DROP_DURING_CALL, &P_LAST_HOLDER_FOREIGN, &P_UNWIND_DROPS, &P_UNWIND_LAST, &P_CALL_AFTER_PKG_AND_RT_GONE, &P_CALL_AFTER_FAILED_RELOAD, &P_SKIPPED, &P_EXECUTED, &P_CHECKS, &FAILED_RELOADS] {
         a.store(0, SeqCst);
     }
     IN_CALL.store(0, SeqCst);
@@ -1413,6 +1507,8 @@ pub fn execute(d: &LifeDesc, keep_trace: bool) -> RunResult {
     c.insert("probe_call_after_package_and_runtime_gone".into(), P_CALL_AFTER_PKG_AND_RT_GONE.load(SeqCst));
     c.insert("probe_old_handle_called_after_failed_reload".into(), P_CALL_AFTER_FAILED_RELOAD.load(SeqCst));
     c.insert("fault_failed_reload".into(), FAILED_RELOADS.load(SeqCst));
+    c.insert("fault_owner_dropped_by_unwinding".into(), P_UNWIND_DROPS.load(SeqCst));
+    c.insert("probe_last_holder_dropped_by_unwinding".into(), P_UNWIND_LAST.load(SeqCst));
     for op in d.setup.iter().chain(d.threads.iter().flatten()) {
         *c.entry(format!("op_{}", label(op))).or_insert(0) += 1;
     }
@@ -1460,6 +1556,29 @@ pub fn shrink(d: &LifeDesc) -> Vec<LifeDesc> {
         let mut c = d.clone();
         c.setup.remove(k);
         out.push(c);
+    }
+    // a release by unwinding becomes a plain drop
+    let plain = |op: &LifeOp| match op {
+        LifeOp::DropUnwinding { what: 0, slot } => Some(LifeOp::DropHandle { h: *slot }),
+        LifeOp::DropUnwinding { what: 1, slot } => Some(LifeOp::DropPackage { p: *slot }),
+        LifeOp::DropUnwinding { slot, .. } => Some(LifeOp::DropRuntime { r: *slot }),
+        _ => None,
+    };
+    for t in 0..d.threads.len() {
+        for k in 0..d.threads[t].len() {
+            if let Some(op) = plain(&d.threads[t][k]) {
+                let mut c = d.clone();
+                c.threads[t][k] = op;
+                out.push(c);
+            }
+        }
+    }
+    for k in 0..d.setup.len() {
+        if let Some(op) = plain(&d.setup[k]) {
+            let mut c = d.clone();
+            c.setup[k] = op;
+            out.push(c);
+        }
     }
     // move the last setup operation... keep simple: schedule simplifications
     if !sched.is_empty() {
